@@ -34,6 +34,7 @@ MonInit ==
   [ sent |-> <<>>, got |-> <<>>, cst |-> <<>>, nread |-> <<>>,
     ans |-> <<>>, redir |-> <<>>, nlog |-> <<>>, pend |-> <<>>, unread |-> <<>>,
     lostp |-> <<>>,      \* conn -> fragments that died with it, not yet noticed by the proxy
+    dirty |-> {},        \* conns holding bytes the proxy has not read yet (it reads data before EOF)
     recvd |-> {}, lost |-> {}, noticed |-> {}, expired |-> {}, tmo |-> {}, rd |-> {},
     connLost |-> FALSE, viol |-> {}, dead |-> FALSE ]
 
@@ -206,11 +207,14 @@ MonApply(m, e) ==
              p == At(m.pend, e.conn, <<>>)
              m1 == [m EXCEPT !.pend = Put(@, e.conn, IF p = <<>> THEN p ELSE Tail(p))]
          IN IF e.kind \in {"moved", "ask"}
-            THEN [m1 EXCEPT !.redir = Put(@, f, Append(At(m.redir, f, <<>>), [kind |-> e.kind, to |-> e.to, from |-> e.n]))]
+            THEN [m1 EXCEPT !.redir = Put(@, f, Append(At(m.redir, f, <<>>), [kind |-> e.kind, to |-> e.to, from |-> e.n])),
+                            !.dirty = @ \cup {e.conn}]
             ELSE [m1 EXCEPT !.ans = Put(@, f, [n |-> e.n, kind |-> e.kind, cls |-> e.cls, num |-> e.num,
                                                byj |-> [j \in {e.toks[k].j : k \in DOMAIN e.toks} |->
                                                           (CHOOSE t \in SeqRange(e.toks) : t.j = j).v]]),
-                            !.unread = Put(@, e.conn, At(m.unread, e.conn, {}) \cup {f})]
+                            !.unread = Put(@, e.conn, At(m.unread, e.conn, {}) \cup {f}),
+                            !.dirty = @ \cup {e.conn}]
+    [] e.ev = "answerhead" -> [m EXCEPT !.dirty = @ \cup {e.conn}]
     [] e.ev = "bclose" ->
          \* the node dropped the connection: what it had not answered dies with it
          LET dying == SeqRange(At(m.pend, e.conn, <<>>)) IN
@@ -244,12 +248,14 @@ MonApply(m, e) ==
          LET conns == {x.n : x \in {y \in SeqRange(e.seen) : y.k = "s"}}
              clis  == {x.n : x \in {y \in SeqRange(e.seen) : y.k = "c"}}
              newrd == UNION {At(m.unread, cn, {}) : cn \in conns}
-             newnt == UNION {At(m.lostp, cn, {}) : cn \in conns}
+             eof   == conns \ m.dirty      \* one read per event: pending bytes first, end-of-file next time
+             newnt == UNION {At(m.lostp, cn, {}) : cn \in eof}
              m1 == [m EXCEPT !.rd = @ \cup newrd,
                              !.noticed = @ \cup newnt,
                              !.tmo = IF e.seen # <<>> THEN @ \cup m.expired ELSE @,
                              !.unread = [cn \in DOMAIN m.unread |-> IF cn \in conns THEN {} ELSE m.unread[cn]],
-                             !.lostp = [cn \in DOMAIN m.lostp |-> IF cn \in conns THEN {} ELSE m.lostp[cn]],
+                             !.lostp = [cn \in DOMAIN m.lostp |-> IF cn \in eof THEN {} ELSE m.lostp[cn]],
+                             !.dirty = @ \ conns,
                              !.nread = [c \in DOMAIN m.nread \cup clis |->
                                           IF c \in clis THEN Len(Sent(m, c)) ELSE m.nread[c]]]
          IN AddViol(m1, WaitViol(m1, FALSE))
